@@ -294,8 +294,8 @@ class Ops(object):
         elif name == "pow":
             if self.path.decide(mk_cmp("lt", b2i(b), 0)):
                 raise Unsupported("negative exponent (float result)")
-            if is_sym(b) and not self.path.concrete:
-                # an exponent that the path condition bounds is enumerated (c ** k is then plain arithmetic)
+            if is_sym(b) and not is_sym(a) and not self.path.concrete:
+                # a constant base with an exponent that the path condition bounds: enumerated (c ** k is then a constant)
                 if self.path.solver.feasible(mk_cmp("lt", 136, b2i(b)).t) == "unsat":
                     b = self.path.pick_value(b, "exponent")
         elif name == "truediv":
